@@ -78,6 +78,9 @@ F: Dict[str, Dict[str, Any]] = {
     'reexport-import-shadow': {'a': 'try:\n    from _speedups33 import Enc33\nexcept ImportError:\n    Enc33 = None\nif Enc33 is None:\n    class Enc33: pass\n',
                                'b': 'from p.a import Enc33\n__all__=["Enc33"]\n', 'c': 'from p import a as a33\nclass J33(a33.Enc33): pass\n'},
     'reexport-import-shadow-plain': {'a': 'from ext35 import Enc35\nclass Enc35: pass\n', 'b': 'from p.a import Enc35\n__all__=["Enc35"]\n', 'c': 'import p.a\nclass J35(p.a.Enc35): pass\n'},
+    # a base that is external to the project, reached through a module of the project
+    'external-base-via-module': {'a': 'from ext36 import Ext36\n', 'c': 'import p.a\nclass C36(p.a.Ext36): pass\n', 'b': 'from .a import Ext36 as E36\nclass B36(E36): pass\n'},
+    'external-base-via-pkg': {'a': 'import ext37\n', 'c': 'import p\nclass C37(p.a.ext37.Ext37): pass\n'},
     'cycle':        {'a': 'from .b import B17\nclass A17: pass\nclass A17b(B17): pass\n', 'b': 'from .a import A17\nclass B17(A17): pass\n', '__cyclic__': True},
     'cycle3':       {'a': 'from .b import B27\nclass A27(B27): pass\n', 'b': 'from .c import C27\nclass B27(C27): pass\n', 'c': 'from . import a\nclass C27: pass\nclass D27(a.A27): pass\n', '__cyclic__': True},
     'tc-cycle':     {'a': 'from typing import TYPE_CHECKING\nif TYPE_CHECKING:\n    from .b import B18\nclass A18: pass\n', 'b': 'from .a import A18\nclass B18(A18): pass\n', '__cyclic__': True},
